@@ -176,6 +176,13 @@ def catalogue(rnd, quick):
         add("fill-slot+define-macro", pre + '<b metal:use-macro="m"><a metal:fill-slot="s" metal:define-macro="«q»">t</a></b>')
         add("bad-interpolation-setting", pre + '<a meta:interpolation="«maybe»">t</a>')
         add("unmatched-end-tag", pre + '<a>t</a>«</b>»')
+        # end tags of elements that an earlier end tag has closed implicitly (tag soup), and a second end tag
+        add("end-tag-of-implicitly-closed", pre + '<ul><li>one</ul>«</li>»')
+        add("end-tag-of-implicitly-closed-far", pre + '<table><tr><td>x</tr></table><p>text«</td>»</p>')
+        add("end-tag-of-implicitly-closed-nested", pre + '<p><b><i>x</p>«</i>»</b>')
+        add("end-tag-of-implicitly-closed-sibling", pre + '<div><p>a<p>b</div>«</p>»')
+        add("end-tag-twice", pre + '<a>t</a>«</a>»')
+        add("end-tag-crossed", pre + '<a><b>x</a>y«</b>»z')
         add("double-hyphen-comment", pre + '<!-- a «--» b -->')
         add("reserved-name-define", pre + '<a tal:define="«econtext» 1">t</a>')
         add("reserved-name-2nd-define", pre + '<a tal:define="x 1; «rcontext» 2">t</a>')
@@ -251,7 +258,12 @@ def _cases(cases):
 
 def catalogue_part(ctx, rnd, quick):
     cases = catalogue(rnd, quick)
-    chunks = [cases[i::16] for i in range(16)]
+    # one process compiles all planted templates of a kind one after the other: the same erroneous statement (same
+    # text) stands at a different place in each of them, and what is reported belongs to the template being compiled
+    kinds = sorted({c[0] for c in cases})
+    chunks = [[c for c in cases if kinds.index(c[0]) % 16 == i] for i in range(16)]
+    for ch in chunks[1::2]:
+        ch.reverse()
     with multiprocessing.get_context("fork").Pool(16) as pool:
         res = pool.map(_cases, chunks)
     bykind = {}
